@@ -86,11 +86,28 @@ def run_case(cs):
             cs.count("anchored_patterns_in_pool")
     nested = rng.sample(subdirs, min(len(subdirs), rng.choice([0, 0, 1, 2])))
     first_pats = rng.sample(pool, rng.randint(1, 3))
+    if rng.random() < 0.04:
+        # an outer nested history records a folder, then a history is created further in with a folder pattern for it,
+        # then the run on the root brings the same pattern: the folder is ignored, not missing
+        for rel, data in (("outerK", None), ("outerK/adir", None), ("outerK/adir/deep", None), ("outerK/adir/deep/x.bin", b"x"), ("outerK/adir/keep.bin", b"k"), ("outerK/o.bin", b"o")):
+            if data is None:
+                os.makedirs(os.path.join(root, rel), exist_ok=True)
+            else:
+                with open(os.path.join(root, rel), "wb") as f:
+                    f.write(data)
+            tree[rel] = data
+        nested = ["outerK", "outerK/adir"]
+        first_pats = ["deep/"] + [p for p in first_pats if p != "deep/"][:1]
+        cs.count("folder_pattern_for_a_folder_recorded_by_an_outer_history")
     steps = []
     # children first, with a subset of the parent's first patterns
     child_prev = {}
     for n in nested:
         sub = [p for p in first_pats if rng.random() < 0.5]
+        if n == "outerK":
+            sub = [p for p in sub if p != "deep/"]
+        elif n == "outerK/adir":
+            sub = ["deep/"] + [p for p in sub if p != "deep/"]
         r = drive.run("create", [os.path.join(root, n), "-h", "md5"] + [x for p in sub for x in ("-i", p)])
         steps.append(f"child {n!r} -i {sub} => {r.exit}")
         if r.exit != 0:
